@@ -1576,10 +1576,15 @@ func isComplexAggregationExpression(expr string) bool {
 	// Special case: single aggregation function with nested expression (only when OUTER is aggregation)
 	isSingleAggWithNestedFunc := false
 	if aggCount == 1 && outerIsAggregation {
-		start := strings.Index(expr, "(")
-		end := strings.LastIndex(expr, ")")
-		if start != -1 && end != -1 && end > start {
-			innerExpr := strings.TrimSpace(expr[start+1 : end])
+		// The item must BE the aggregate call: its opening parenthesis has to be
+		// closed by the last character. "AVG(v) * 1.8 + 32" starts with an
+		// aggregate too, but the arithmetic around the call is post-aggregation
+		// work, not part of a single aggregate.
+		trimmed := strings.TrimSpace(expr)
+		start := strings.Index(trimmed, "(")
+		end := strings.LastIndex(trimmed, ")")
+		if start != -1 && end > start && end == len(trimmed)-1 && findMatchingParenInternal(trimmed, start) == end {
+			innerExpr := strings.TrimSpace(trimmed[start+1 : end])
 			if !containsOperators(innerExpr) {
 				isSingleAggWithNestedFunc = true
 			}
